@@ -90,7 +90,20 @@ pub struct Call {
   pub failed: bool, // the injected fault hit this call
 }
 
+// What the world looked like when a poll returned (for cutting a run into a prefix and a suffix)
+#[derive(Clone, Debug)]
+pub struct PollSnap {
+  pub call_idx: usize,            // index of the poll in `calls`
+  pub action_idx: Option<usize>,  // the scripted action it consumed (None: schedule exhausted)
+  pub next_action: usize,
+  pub kb_next: usize,             // keyboard events that have arrived so far
+  pub kb_queue_len: usize,        // arrived and not yet read
+  pub tab_queue_len: usize,
+  pub pending_mid: bool,          // arrivals scheduled for the middle of the coming drain
+}
+
 pub struct Driver {
+  pub poll_snaps: Vec<PollSnap>,
   script: Script,
   next_action: usize,
   kb_next: usize, // index of the next keyboard event that has not arrived yet
@@ -118,6 +131,7 @@ pub fn fault_marker(k: usize) -> String {
 impl Driver {
   pub fn new(script: Script, fail_at: Option<usize>) -> Driver {
     Driver {
+      poll_snaps: Vec::new(),
       script,
       next_action: 0,
       kb_next: 0,
@@ -205,6 +219,7 @@ impl ScriptedDriver for Driver {
     }
     self.pending_mid.clear();
     self.reads_this_drain = 0;
+    let consumed: Option<usize> = if self.next_action >= self.script.actions.len() { None } else { Some(self.next_action) };
     let ret = if self.next_action >= self.script.actions.len() {
       // schedule exhausted: everything that has not arrived yet arrives now and the device ends
       let rest = self.script.kb_events.len() - self.kb_next;
@@ -276,6 +291,7 @@ impl ScriptedDriver for Driver {
         }
       }
     };
+    self.poll_snaps.push(PollSnap { call_idx: self.calls.len(), action_idx: consumed, next_action: self.next_action, kb_next: self.kb_next, kb_queue_len: self.kb_queue.len(), tab_queue_len: self.tab_queue.len(), pending_mid: !self.pending_mid.is_empty() });
     self.calls.push(Call { kind: CallKind::Poll { timeout, ret: Some(ret.clone()), lost_wakeup: lost }, t_entry: t0, t_ret: Instant::now(), failed: false });
     Ok(ret)
   }
